@@ -54,19 +54,43 @@ def run_monitor(sc, event_files, v, module="Mon_Prio"):
     mon = os.path.join(sc, "mon")
     os.makedirs(mon, exist_ok=True)
     stage_specs(mon)
+    n_lines = 0
     with open(os.path.join(mon, "events.ndjson"), "w") as out:
         for f in event_files:
             with open(f) as fh:
-                shutil.copyfileobj(fh, out)
+                for line in fh:
+                    if not line.endswith("\n"):
+                        break  # a recorder that died mid-write leaves a partial last line: the complete records are still judged
+                    try:
+                        json.loads(line)
+                    except ValueError:
+                        break
+                    out.write(line)
+                    n_lines += 1
     r = tlc(mon, module, cfg=module + ".cfg", workers=8, timeout=1500, extra=["-continue"])
-    if not r.finished or (r.crashed and not r.inv_violated):
-        raise Inconclusive("monitor TLC failed\n" + r.out[-3000:])
+    tool_errors = [l for l in r.out.splitlines() if l.startswith("Error:") and "Invariant" not in l and "behavior up to this point" not in l]
+    # every record yields one state, except the rest of a trace after its first offending record
+    if not r.finished or r.distinct == 0 or tool_errors or (r.crashed and not r.inv_violated) or (r.distinct < n_lines and not r.inv_violated):
+        raise Inconclusive("monitor TLC failed (%d records, %d states, %s)\n%s" % (n_lines, r.distinct, tool_errors[:2], r.out[-3000:]))
     v.add_tlc(r, module + " (observation monitor over recorded real traces)")
     viol = {}
     for inv, t0 in parse_violations(r.out, "t0"):
         viol.setdefault(inv.replace("M_", ""), set()).add(t0)
     events = read_ndjson(os.path.join(mon, "events.ndjson"))
     return viol, events
+
+
+def known_for(pid, tr):
+    """a rejected trace that matches a KNOWN_FINDINGS.json entry (by the specific scenario it records) is a known finding"""
+    for k in known_findings().get("known", []):
+        if k["property"] != pid or k.get("kind") != "trace":
+            continue
+        w = k["where"]
+        if "v1" in w and bool(tr[0].get("v1")) != bool(w["v1"]):
+            continue
+        if any(e["e"] == w["event"] and e.get("note") == w["note"] for e in tr):
+            return k
+    return None
 
 
 def trace_at(events, t0):
@@ -108,12 +132,17 @@ def stats_of(events):
     return traces
 
 
-def v2_property(pid, tier, cfgs, cont, nontrivial, rule, level="model_checking", quick_limit=1200, thorough_limit=None, extra=None, free=False, v1kinds=(), v1models=None, simple=False):
+def v2_property(pid, tier, cfgs, cont, nontrivial, rule, level="model_checking", quick_limit=600, thorough_limit=None, extra=None, free=False, v1kinds=(), v1models=None, simple=False):
     v = Verdict(pid, tier, level)
     rnd = random.Random(seed())
+    import time as _t
+    T0 = _t.time()
+    def lap(what):
+        log("[%s] t+%.0fs %s" % (pid, _t.time() - T0, what))
     with Scratch(pid.lower()) as sc:
         binary = os.path.join(sc, "prioh.test")
         build_test("prioh", binary)
+        lap("built")
         files, jobs = [], []
         tot = dict(paths=0, steps=0, diverged=0, races=0)
         drift_samples = []
@@ -139,9 +168,11 @@ def v2_property(pid, tier, cfgs, cont, nontrivial, rule, level="model_checking",
             files.append(os.path.join(fsub, "free_events.ndjson"))
             if free_stats["races"]:
                 v.notes.append("race detector reported %d race(s) in free-running runs (verdict of C20)" % free_stats["races"])
+        lap("v2 replays done")
         v1recs = []
         if v1models:
             v1models(v, sc, binary)
+            lap("v1 models done")
         for kind in v1kinds:
             for c1 in v1_configs(kind, tier):
                 rec = record_v1(binary, sc, c1, 150 if tier == "quick" else 3000)
@@ -150,13 +181,15 @@ def v2_property(pid, tier, cfgs, cont, nontrivial, rule, level="model_checking",
                 files.append(rec["obs"])
                 if rec["spin"]:
                     v.notes.append("spin detected in %s (verdict of C16)" % c1["name"])
+        lap("v1 records done")
         if simple:
             for c2 in simple_configs(tier):
                 rec = record_simple(binary, sc, c2, 120 if tier == "quick" else 3000)
                 log("[%s] simple %s: recorded, %.1fs" % (pid, c2["name"], rec["wall"]))
                 files.append(rec["obs"])
-        log("[%s] monitor ..." % pid)
+        lap("monitor ...")
         viol, events = run_monitor(sc, files, v)
+        lap("monitor done")
         log("[%s] monitor done: %s" % (pid, {k: len(x) for k, x in viol.items()}))
         traces = stats_of(events)
         # map monitor violations of THIS property to replays
@@ -166,8 +199,18 @@ def v2_property(pid, tier, cfgs, cont, nontrivial, rule, level="model_checking",
             n = sum(1 for _ in open(os.path.join(sub, "replay_events.ndjson")))
             offsets.append((off, off + n, cfg, paths))
             off += n
-        for t0 in bad_t0[:5]:
+        reported = 0
+        for t0 in bad_t0:
             tr = trace_at(events, t0)
+            k = known_for(pid, tr)
+            if k:
+                line = "%s (listed finding %s)" % (k["text"][:200], k["id"])
+                if line not in v.known_hit:
+                    v.known_hit.append(line)
+                continue
+            if reported >= 5:
+                continue
+            reported += 1
             hit = [(c, p) for (a, b, c, p) in offsets if a < t0 <= b]
             if tr[0].get("cont") == "simple":
                 v.violation("%s: monitor Mon_Prio rejects a trace recorded from the real simplified discipline (config %s, run %d, seed %s): %s" % (
@@ -217,7 +260,7 @@ def summarize(pid, tr):
 
 # ------------------------------------------------------------------------------------------------ properties
 def cfgs_basic(tier):
-    c = [mk("p2rate", [2, 1], 3, "rate", 2, 2), mk("p3fair", [3, 2, 1], 4, "fair", 1, 1), mk("p2rev", [2, 1], 3, "rev", 2, 1)]
+    c = [mk("p2rate", [2, 1], 3, "rate", 2, 2), mk("p3fair", [3, 2, 1], 3, "fair", 1, 1), mk("p2rev", [2, 1], 3, "rev", 2, 1)]
     if tier == "thorough":
         c = [mk("p2rate", [2, 1], 3, "rate", 2, 3), mk("p3fair", [3, 2, 1], 4, "fair", 1, 2), mk("p2rev", [2, 1], 3, "rev", 2, 2),
              mk("p3rate", [3, 2, 1], 6, "rate", 1, 1), mk("p2fairlow", [2, 1], 3, "fairlow", 2, 2), mk("p2skew", [10, 1], 11, "rate", 1, 1)]
@@ -225,8 +268,12 @@ def cfgs_basic(tier):
 
 
 def models_v1_basic(v, sc, binary):
-    v1_model(v, sc, binary, mk1("v1dynm", [3, 2, 1], {2: 1, 1: 2}, 3, "fair", 3, 1, 1, graceful=True, adds=[[3, 3]], rmvs=[1]))
-    v1_model(v, sc, binary, mk1("v1gracem", [2, 1], {2: 1, 1: 2}, 3, "rate", 2, 1, 2, graceful=True, stop=True))
+    if v.tier == "thorough":
+        v1_model(v, sc, binary, mk1("v1dynm", [3, 2, 1], {2: 1, 1: 2}, 3, "fair", 3, 1, 1, graceful=True, adds=[[3, 3]], rmvs=[1]))
+        v1_model(v, sc, binary, mk1("v1gracem", [2, 1], {2: 1, 1: 2}, 3, "rate", 2, 1, 2, graceful=True, stop=True))
+    else:  # the larger v1 models run in the quick tiers of C16 / C17
+        v1_model(v, sc, binary, mk1("v1dyns", [2, 1], {2: 1}, 2, "fair", 2, 1, 1, graceful=True, adds=[[2, 1]], rmvs=[2]))
+        v1_model(v, sc, binary, mk1("v1graces", [2, 1], {2: 1, 1: 2}, 2, "rate", 2, 1, 1, graceful=True, stop=True))
 
 
 def check_C01(tier):
@@ -285,14 +332,14 @@ def check_C06(tier):
     cfgs = cfgs_basic(tier) + [mk("p2skew", [10, 1], 11, "rate", 1, 1)]
     if tier == "quick":
         cfgs = [cfgs[0], cfgs[2], cfgs[3]]
-    return v2_property("C06", tier, cfgs, "alone", free=True,
+    return v2_property("C06", tier, cfgs, "alone", free=True, v1kinds=("alone", "grace"),
                        nontrivial=lambda t: t.get("QA") is not None,
                        rule="TLC liveness (every written item eventually received, termination) under fairness, in bounded PrioV2 configs incl. an unbuffered "
                             "input and skewed priorities; real code: every cover path is replayed gated, then the continuation releases and drains everything "
                             "('nothing in flight'), gives data to ONE priority only and never releases: Mon_Prio demands that priority reaches H unreleased "
                             "items (granted all handlers, no release needed), and that nothing written stays undelivered once inputs are closed and "
                             "everything is released (Starved). non-trivial = trace in which the alone-scenario ran; distinct by events",
-                       extra=liveness_C06, quick_limit=900)
+                       extra=liveness_C06, quick_limit=500)
 
 
 def models_v1_grace(v, sc, binary):
@@ -310,7 +357,7 @@ def check_C05(tier):
                             "with every input topped up before each scheduler step; verdict by Mon_Prio: per-priority received - release-issued "
                             "<= share at every event, and at the stall point (nothing outstanding) every priority holds exactly its share, share = "
                             "real divider(all priorities, H). non-trivial = trace with more deliveries than H (shares were recycled); distinct by events",
-                       quick_limit=1500)
+                       quick_limit=800)
 
 
 def check_C15(tier):
@@ -415,6 +462,12 @@ def v1_configs(kind, tier):
     if kind == "grace":
         return [mk1("v1grace", [2, 1], {2: 1, 1: 2}, 3, "rate", 2, 2, 6, graceful=True),
                 mk1("v1gracefair", [3, 2, 1], {3: 1, 2: 2, 1: 3}, 4, "fair", 3, 1, 4, graceful=True, unbuf=[3], outcap=1)]
+    if kind == "alone":
+        al = dict(alone=True)
+        return [mk1("v1alone", [2, 1], {2: 1, 1: 2}, 3, "rate", 2, 2, 4, extra=al),
+                mk1("v1alonefair", [3, 2, 1], {3: 1, 2: 2, 1: 3}, 4, "fair", 3, 1, 3, extra=al),
+                mk1("v1aloneskew", [10, 1], {10: 1, 1: 2}, 11, "rate", 2, 2, 3, extra=al),
+                mk1("v1alonezero", [3, 2, 1], {3: 1, 2: 2, 1: 3}, 1, "rate", 3, 2, 3, extra=al)]   # fatal by the subset definition: F4
     if kind == "fault":
         return [mk1("v1fault", [2, 1], {2: 1, 1: 2}, 3, "rate", 2, 2, 6, graceful=True, faults=1),
                 mk1("v1faultfair", [3, 2, 1], {3: 1, 2: 2, 1: 3}, 4, "fair", 3, 1, 4, graceful=True, faults=1)]
